@@ -37,6 +37,9 @@ rule first { condition: uint32(0) == 0x44414548 }
 rule pe { condition: uint16(0) == 0x5a4d }
 rule ep { condition: entrypoint >= 0 }
 rule empty { condition: filesize == 0 }
+rule wfw { strings: $w = "foo" wide fullword condition: $w }
+rule afw { strings: $f = "TAIL" fullword condition: $f }
+rule wnc { strings: $n = "foo" wide nocase condition: $n }
 """
 
 
@@ -141,11 +144,14 @@ def reiteration(ck, w):
     return n
 
 
-def entry_points(ck, w):
+def entry_points(ck, w, variant="plain"):
     pe = yv.blob("PE32_FILE")
     def text(n):
         return (b"HEAD" + b"." * max(0, n - 8) + b"TAIL")[:n] if n >= 8 else b"H" * n
-    bufs = [b"", b"L", text(8), text(4095), text(4096), text(4097), text(8192), text(12288), pe, pe + b"\0" * (4096 - len(pe))]
+    wf = "foo".encode("utf-16le")
+    # matches whose neighbourhood check looks at the bytes right before the start / after the end of the data: the answer must not depend on what lies outside
+    edge = [b"key=" + wf + b"x", b"key=" + wf + b"x\0", b"key=" + wf, wf + b"x", b"x" + wf, b"..xTAIL", b"TAILx", b"...TAIL", b"key=" + "FOO".encode("utf-16le") + b"1"]
+    bufs = [b"", b"L", text(8), text(4095), text(4096), text(4097), text(8192), text(12288), pe, pe + b"\0" * (4096 - len(pe))] + edge
     rep = w.batch(["reset", "compiler 0", "add 0 - " + yv.hx(EP_RULES % ()), "getrules 0 0", "cdestroy 0", "scanner 0 0"])
     assert rep[2]["errors"] == 0, rep[2]
     n = 0
@@ -156,14 +162,22 @@ def entry_points(ck, w):
                 ("rules-file", "scan target=r0 via=file data=" + d), ("rules-fd", "scan target=r0 via=fd data=" + d),
                 ("scanner-iterator-1block", "scan target=s0 via=blocks data=" + d + (" blocks=0" if not b else "")),
                 ("rules-iterator-1block", "scan target=r0 via=blocks data=" + d + (" blocks=0" if not b else ""))]
-        reps = w.batch([c for _, c in ways])
+        try:
+            reps = w.batch([c for _, c in ways])
+        except (yv.WorkerDied, yv.WorkerHang) as e:
+            err = getattr(e, "err", "")
+            kind = ("asan:" + err.split("AddressSanitizer: ")[1].split()[0]) if "AddressSanitizer: " in err else "died"
+            ck.violation("C13:entry-point:crash:%s:%s" % (kind, (e.cmd.split("via=")[1].split()[0] if "via=" in e.cmd else "?")), dict(size=len(b), data_hex=b[:64].hex(), stderr=err[-2000:]))
+            yv.drop_worker(variant); w = yv.get_worker(variant)
+            w.batch(["reset", "compiler 0", "add 0 - " + yv.hx(EP_RULES % ()), "getrules 0 0", "cdestroy 0", "scanner 0 0"])
+            continue
         ref = obs(reps[0])
         for (name, cmd), r in zip(ways, reps):
             n += 1
             if obs(r) != ref:
                 ck.violation("C13:entry-point:%s:size=%s" % (name, "0" if not b else "page-multiple" if len(b) % 4096 == 0 else "other"),
                              dict(size=len(b), entry_point=name, reference_entry_point="scanner-mem", reference=reps[0], observed=r))
-    ck.sub("entry-points", buffers=len(bufs), executions=n, sizes=[len(b) for b in bufs])
+    ck.sub("entry-points:" + variant, buffers=len(bufs), executions=n, sizes=[len(b) for b in bufs])
     return n
 
 
@@ -213,6 +227,7 @@ def main():
     bufs = [bytes(t) for n in range(0, maxlen + 1) for t in itertools.product(b"ab", repeat=n)]
     w = yv.get_worker("plain")
     n_ep = entry_points(ck, w)
+    wa = yv.get_worker("asan"); n_ep += entry_points(ck, wa, "asan"); yv.drop_worker("asan")      # once more under ASan: a look one byte past the data is a report
     n_re = reiteration(ck, w) + executables(ck, w)
     yv.drop_worker("plain")
     distinct = set(); calls = 0
